@@ -107,14 +107,17 @@ def locationNode (c : Codec) (l : List Dimension) : Tree :=
 def mapNode (c : Codec) (m : AxisMapping) : Tree :=
   .elem "map" (mkAttrs [("input", some (c.showF32 m.input)), ("output", some (c.showF32 m.output))]) []
 
+/-- `map: Option<Vec<AxisMapping>>` under `skip_serializing_if = "Option::is_none"` -/
+def mapNodes (c : Codec) : Option (List AxisMapping) → List Tree
+  | none => []
+  | some ms => ms.map (mapNode c)
+
 def axisNode (c : Codec) (a : Axis) : Tree :=
   .elem "axis" (mkAttrs [("name", some a.name), ("tag", some a.tag), ("default", some (c.showF32 a.default)),
       ("hidden", if a.hidden then some "true" else none),
       ("minimum", a.minimum.map c.showF32), ("maximum", a.maximum.map c.showF32),
       ("values", a.values.map (showValues c))])
-    (match a.map with
-     | none => []
-     | some ms => ms.map (mapNode c))
+    (mapNodes c a.map)
 
 def conditionNode (c : Codec) (x : Condition) : Tree :=
   .elem "condition" (mkAttrs [("name", some x.name), ("minimum", x.minimum.map c.showF32),
@@ -259,10 +262,13 @@ def readLib (c : Codec) (cs : List Tree) : Option KVs :=
     | .one _ d => (readPairs c d).map fun kvs => KVs.nil.insertAll kvs
     | _ => none
 
-def optF32Attr (c : Codec) (as : List (String × String)) (k : String) : Option (Option F32) :=
-  match attr? as k with
+/-- an optional numeric attribute: absent = `None`, present = must parse -/
+def readOptF32 (c : Codec) : Option String → Option (Option F32)
   | none => some none
   | some s => (c.readF32 s).map some
+
+def optF32Attr (c : Codec) (as : List (String × String)) (k : String) : Option (Option F32) :=
+  readOptF32 c (attr? as k)
 
 def splitSp : List Char → List Char → List (List Char)
   | [], cur => if cur.isEmpty then [] else [cur]
@@ -278,6 +284,16 @@ def readBool (s : String) : Option Bool :=
   if s = "true" ∨ s = "1" then some true
   else if s = "false" ∨ s = "0" then some false
   else none
+
+/-- `#[serde(default)] hidden: bool` -/
+def readHidden : Option String → Option Bool
+  | none => some false
+  | some s => readBool s
+
+/-- `values: Option<Vec<f32>>` in an attribute -/
+def readOptValues (c : Codec) : Option String → Option (Option (List F32))
+  | none => some none
+  | some s => (readValues c s).map some
 
 /-- a `Vec` field without `default`: at least one element or "missing field" -/
 def readVec1 {α : Type} (f : Tree → Option α) (n : String) (cs : List Tree) : Option (List α) :=
@@ -307,22 +323,21 @@ def mapOf (c : Codec) : Tree → Option AxisMapping
     pure ⟨i, o⟩
   | .txt _ => none
 
+/-- `map: Option<Vec<AxisMapping>>`: no `<map>` child = `None` -/
+def readOptMaps (c : Codec) : List Tree → Option (Option (List AxisMapping))
+  | [] => some none
+  | ts => (ts.mapM (mapOf c)).map some
+
 def axisOf (c : Codec) : Tree → Option Axis
   | .elem _ as cs => do
     let name ← attr? as "name"
     let tag ← attr? as "tag"
     let default ← (attr? as "default").bind c.readF32
-    let hidden ← match attr? as "hidden" with
-      | none => some false
-      | some s => readBool s
+    let hidden ← readHidden (attr? as "hidden")
     let minimum ← optF32Attr c as "minimum"
     let maximum ← optF32Attr c as "maximum"
-    let values ← match attr? as "values" with
-      | none => some none
-      | some s => (readValues c s).map some
-    let map ← match childrenNamed "map" cs with
-      | [] => some none
-      | ts => (ts.mapM (mapOf c)).map some
+    let values ← readOptValues c (attr? as "values")
+    let map ← readOptMaps c (childrenNamed "map" cs)
     pure ⟨name, tag, default, hidden, minimum, maximum, values, map⟩
   | .txt _ => none
 
@@ -359,14 +374,17 @@ def ruleOf (c : Codec) : Tree → Option Rule
 def readProcessing (s : String) : Option RuleProcessing :=
   if s = "first" then some .first else if s = "last" then some .last else none
 
+/-- `#[serde(default)] processing` -/
+def readOptProcessing : Option String → Option RuleProcessing
+  | none => some .first
+  | some s => readProcessing s
+
 def readRules (c : Codec) (cs : List Tree) : Option Rules :=
   match oneChild "rules" cs with
   | .absent => some ⟨.first, []⟩
   | .dup => none
   | .one as k => do
-    let p ← match attr? as "processing" with
-      | none => some .first
-      | some s => readProcessing s
+    let p ← readOptProcessing (attr? as "processing")
     let rs ← (childrenNamed "rule" k).mapM (ruleOf c)
     pure ⟨p, rs⟩
 
